@@ -201,6 +201,8 @@ func Generate(t *rapid.T, o Options) Query {
 			sb.WriteString(g.with())
 		case kind < 8 && o.AllowUnwind:
 			sb.WriteString(g.unwind())
+		case kind == 8 && o.AllowWith && o.AllowUnwind && o.AllowAggregate && len(g.varsOf(TNode)) > 0 && g.chance("collectunwind", 1, 2):
+			sb.WriteString(g.collectThenUnwind())
 		default:
 			sb.WriteString(g.match(false))
 		}
@@ -399,10 +401,28 @@ func (g *gen) match(optional bool) string {
 		sb.WriteString(g.patternPart(true))
 	}
 	if g.chance("where", 1, 2) {
-		sb.WriteString(" where " + g.boolExpr(1+g.pick("wheredepth", 2)))
+		sb.WriteString(" where ")
+		if ps := g.varsOf(TPath); len(ps) > 0 && g.o.AllowQuant && g.chance("wherequant", 1, 4) {
+			sb.WriteString(g.pathQuantifier(ps[g.pick("wqp", len(ps))].Name) + " and ")
+		}
+		sb.WriteString(g.boolExpr(1 + g.pick("wheredepth", 2)))
 		g.feat("where")
 	}
 	return sb.String()
+}
+
+// pathQuantifier renders any/all/none/single over nodes(p) or relationships(p).
+func (g *gen) pathQuantifier(p string) string {
+	g.feat("quantifier")
+	q := rapid.SampledFrom([]string{"any", "all", "none", "single"}).Draw(g.t, "pquant")
+	g.feat("quantifier-" + q)
+	x := g.fresh("x")
+	if g.chance("pqnodes", 1, 2) {
+		g.feat("quantifier-over-nodes")
+		return fmt.Sprintf("%s(%s in nodes(%s) where %s.value %s %s)", q, x, p, x, rapid.SampledFrom(cmpOps).Draw(g.t, "pqcmp"), g.intLit())
+	}
+	g.feat("quantifier-over-rels")
+	return fmt.Sprintf("%s(%s in relationships(%s) where %s.value %s %s)", q, x, p, x, rapid.SampledFrom(cmpOps).Draw(g.t, "pqcmp"), g.intLit())
 }
 
 // ---------- literals & parameters
@@ -956,6 +976,20 @@ func (g *gen) with() string {
 		}
 	}
 	return s
+}
+
+// collectThenUnwind renders WITH collect(n) AS a UNWIND a AS u: the nodes come back one per row.
+func (g *gen) collectThenUnwind() string {
+	nodes := g.varsOf(TNode)
+	n := nodes[g.pick("cun", len(nodes))].Name
+	a, u := g.fresh("a"), g.fresh("u")
+	g.feat("with")
+	g.feat("aggregation")
+	g.feat("agg-collect")
+	g.feat("unwind")
+	g.feat("unwind-collected-nodes")
+	g.scope = []Var{{u, TNode}}
+	return "with collect(" + n + ") as " + a + " unwind " + a + " as " + u
 }
 
 func (g *gen) unwind() string {
